@@ -43,7 +43,7 @@ def run(tier, seed):
             ("getx2", None, 200), ("guic", None, 150)]
     if not quick:
         # generated suites (random setup DAGs, vf/parse/gensuite.py)
-        plan += [("gen:%d:%d" % (seed + 501 + i, 2 + i % 2), None, 120) for i in range(6)]
+        plan += [("gen:%d:%d" % (seed + 501 + i, 2 + i % 2), None, 150) for i in range(3)]
     return D.generic_run(PID, tier, seed, plan, make_jobs, signature, describe,
                          rule="randomized schedules/outcomes over mixed worker sets (restricted net3/net5, lxc swarm, two remote clusters); TLC "
                               "validates own-worker execution and named sources = shared + workers with a passing producer at every start")
